@@ -1,0 +1,7 @@
+//go:build !verif
+
+package ring
+
+func verifFailpoint(string) error { return nil }
+
+func verifYield(string) {}
